@@ -446,6 +446,70 @@ theorem sparse_within_two_tol_accepted {tol t : Rat} {m : POMDP} (hm : AcceptedM
       mul_le_mul (le_trans hkO hO1) hdP hdP0 (by linarith)
     linarith
 
+theorem sumTo_const (n : Nat) (c : Rat) : sumTo n (fun _ => c) = (n : Rat) * c := by
+  induction n with
+  | zero => simp [sumTo]
+  | succ n ih => simp only [sumTo, ih]; push_cast; ring
+
+/-- normalising two non-negative vectors that differ entrywise by at most `δ` (the smaller one with positive sum):
+    the normalised entries differ by at most `S·δ / Σw` -/
+theorem normalize_close {S : Nat} {w w' : Vec} {δ : Rat} (hw' : ∀ i, i < S → 0 ≤ w' i)
+    (hd : ∀ i, i < S → 0 ≤ w i - w' i ∧ w i - w' i ≤ δ) (hP' : 0 < sumTo S w') {i : Nat} (hi : i < S) :
+    absQ (normalize S w i - normalize S w' i) ≤ (S : Rat) * δ / sumTo S w := by
+  set P := sumTo S w
+  set P' := sumTo S w'
+  have hδ : 0 ≤ δ := le_trans (hd i hi).1 (hd i hi).2
+  have hsub : P - P' = sumTo S (fun k => w k - w' k) := by
+    have : (fun k => w k - w' k) = (fun k => w k + (-1) * w' k) := by funext k; ring
+    rw [this, sumTo_add, sumTo_mul_left]; ring
+  have hPP'0 : 0 ≤ P - P' := by rw [hsub]; exact sumTo_nonneg (fun k hk => (hd k hk).1)
+  have hPP' : P - P' ≤ (S : Rat) * δ := by
+    rw [hsub, ← sumTo_const S δ]; exact sumTo_le_sumTo (fun k hk => (hd k hk).2)
+  have hP : 0 < P := by linarith
+  have hwi : w' i ≤ P' := le_sumTo_of_nonneg hw' hi
+  have hS1 : (1 : Rat) ≤ (S : Rat) := by exact_mod_cast (Nat.succ_le_of_lt (Nat.lt_of_le_of_lt (Nat.zero_le i) hi))
+  have key : normalize S w i - normalize S w' i = ((w i - w' i) * P' - w' i * (P - P')) / (P * P') := by
+    have hPne : P ≠ 0 := ne_of_gt hP
+    have hP'ne : P' ≠ 0 := ne_of_gt hP'
+    show w i / P - w' i / P' = _
+    field_simp
+    ring
+  have h1 : w' i * (P - P') ≤ P' * ((S : Rat) * δ) := mul_le_mul hwi hPP' hPP'0 (le_of_lt hP')
+  have h1' : 0 ≤ w' i * (P - P') := mul_nonneg (hw' i hi) hPP'0
+  have h2 : 0 ≤ (w i - w' i) * P' := mul_nonneg (hd i hi).1 (le_of_lt hP')
+  have h3 : (w i - w' i) * P' ≤ (S : Rat) * δ * P' := by
+    have : (w i - w' i) * P' ≤ δ * P' := mul_le_mul_of_nonneg_right (hd i hi).2 (le_of_lt hP')
+    have : δ * P' ≤ (S : Rat) * δ * P' := by
+      have := mul_le_mul_of_nonneg_right hS1 (mul_nonneg hδ (le_of_lt hP'))
+      linarith
+    linarith
+  have hb : (S : Rat) * δ / P * (P * P') = (S : Rat) * δ * P' := by field_simp
+  rw [key, absQ_le_iff]
+  constructor
+  · rw [le_div_iff₀ (mul_pos hP hP'), neg_mul, hb]; linarith
+  · rw [div_le_iff₀ (mul_pos hP hP'), hb]; linarith
+
+/-- C05 "dense and sparse give the same result", NORMALISED form, with sub-threshold entries dropped: on every model the
+    constructors accept, `updateBelief` on the sparse model is within `S·2·tol·(1+t) / P(o | b, a)` of `updateBelief` on the dense one,
+    entry by entry, whenever the observation still has positive probability in the sparse model -/
+theorem posterior_sparse_close {tol t : Rat} {m : POMDP} (hm : AcceptedModel t m) {b : Vec} (hb : IsBelief m.S b)
+    (htol0 : 0 ≤ tol) {a o : Nat} (ha : a < m.A) (ho : o < m.O) (hpos : 0 < probO (sparsify tol m) b a o)
+    {s1 : Nat} (hs1 : s1 < m.S) :
+    absQ (updateG m b a o s1 - updateG (sparsify tol m) b a o s1) ≤ (m.S : Rat) * (2 * tol * (1 + t)) / probO m b a o := by
+  have hS : (sparsify tol m).S = m.S := rfl
+  have hnn := sparsify_nonneg hm.toNonnegModel htol0
+  have hw' : ∀ i, i < m.S → 0 ≤ unnormG (sparsify tol m) b a o i := fun i hi =>
+    unnorm_nonneg hnn hb.nonneg ha ho i hi
+  have hd : ∀ i, i < m.S → 0 ≤ unnormG m b a o i - unnormG (sparsify tol m) b a o i ∧
+      unnormG m b a o i - unnormG (sparsify tol m) b a o i ≤ 2 * tol * (1 + t) := fun i hi =>
+    sparse_within_two_tol_accepted hm hb htol0 ha ho hi
+  have hP' : 0 < sumTo m.S (unnormG (sparsify tol m) b a o) := by
+    have := unnorm_sum_eq_prob_o (sparsify tol m) b a o
+    rw [hS] at this; rw [this]; exact hpos
+  have := normalize_close hw' hd hP' hs1
+  rw [unnorm_sum_eq_prob_o m b a o] at this
+  exact this
+
 /-- a sparse kernel visits the STORED positions only; `pat i` = position `i` is stored.  Eigen stores whatever was inserted:
     possibly explicit zeros, possibly not every zero (uncompressed or compressed alike) -/
 def sumToPat (pat : Nat → Bool) : Nat → (Nat → Rat) → Rat
